@@ -57,6 +57,16 @@ def guarded(fn, phase):
         return _exc_outcome(e, phase)
 
 
+def interpreter_state():
+    """process-wide interpreter settings a library call has no business changing (and must restore if it touches them)"""
+    import decimal
+    import locale
+    import sys
+    c = decimal.getcontext()
+    return {'recursionlimit': sys.getrecursionlimit(), 'decimal_prec': c.prec, 'decimal_rounding': c.rounding, 'cwd': os.getcwd(),
+            'sys_path_len': len(sys.path), 'locale': locale.setlocale(locale.LC_ALL), 'int_max_str_digits': sys.get_int_max_str_digits()}
+
+
 def make_parser(path, entry=None, safety=False):
     p = Parser().set_excel_file_path(path)
     if entry is not None:
